@@ -30,6 +30,16 @@ func draw(t *rapid.T) sim.ChainCase {
 	g := sim.GenChain(t, sim.GenOpts{
 		Net:       sim.NetOpts{MaxForkHeight: rapid.SampledFrom([]int{6, 12, 25}).Draw(t, "forkSpan"), V2Only: rapid.IntRange(0, 4).Draw(t, "v2only") == 0},
 		MinBlocks: 8, MaxBlocks: 34, Reorgs: true, MaxReorg: 3, Profile: sim.Profile{Contracts: 1, MaxTxns: 5},
+		OnBlock: func(g *sim.Gen, b *sim.Builder) {
+			// blocks that revise a contract and then revise it again or renew it (legal), as a base for second-use probes
+			if rapid.IntRange(0, 5).Draw(g.T, "reviseScenario") == 0 && b.V2Revise() {
+				if rapid.Bool().Draw(g.T, "againOrRenew") {
+					b.V2ReviseAgainInBlock()
+				} else {
+					b.V2RenewRevisedInBlock()
+				}
+			}
+		},
 		BeforeApply: func(g *sim.Gen, honest types.Block, bs consensus.V1BlockSupplement) {
 			if rapid.IntRange(0, 2).Draw(g.T, "probeHere") == 0 {
 				g.NewAdv(honest).DoubleSpendProbes()
